@@ -486,7 +486,16 @@ def m_split(ctx, cty, a):
     s, p = as_sstr(a[0]), pat_sstr(a[1])
     if s.is_concrete() and p.is_concrete():
         return seq_iter([SStr.lit(x) for x in s.concrete().split(p.concrete())], "split")
-    raise Inconclusive("split on symbolic")
+    out = []
+    start = 0
+    while True:
+        i = find_pat(ctx, s, p, start)
+        if i is None:
+            out.append(s.slice(start, len(s)))
+            break
+        out.append(s.slice(start, i))
+        start = i + len(p)
+    return seq_iter(out, "split")
 
 
 @model("core::str::<impl str>::to_lowercase", "core::str::<impl str>::to_uppercase")
@@ -504,7 +513,8 @@ def m_str_find(ctx, cty, a):
     if s.is_concrete() and p.is_concrete():
         i = s.concrete().find(p.concrete())
         return opt_none() if i < 0 else opt_some(i)
-    raise Inconclusive("find on symbolic")
+    i = find_pat(ctx, s, p)
+    return opt_none() if i is None else opt_some(i)
 
 
 @model("core::str::<impl str>::replace", "std::str::<impl str>::replace")
@@ -522,3 +532,31 @@ def m_char_pred(ctx, cty, a):
         ch = chr(c)
         return ch.isdigit() if cty.a[-1][0] == "is_ascii_digit" else ch in "0123456789abcdefABCDEF"
     raise Inconclusive("char predicate on symbolic")
+
+
+def find_pat(ctx, s, p, start=0):
+    """first index >= start where pattern p occurs in s (deciding with the solver), or None"""
+    k = len(p)
+    for i in range(start, len(s) - k + 1):
+        if ctx.decide(s.slice(i, i + k).eq(p)):
+            return i
+    return None
+
+
+@model("core::str::<impl str>::split_once")
+def m_split_once(ctx, cty, a):
+    s, p = as_sstr(a[0]), pat_sstr(a[1])
+    i = find_pat(ctx, s, p)
+    if i is None:
+        return opt_none()
+    return opt_some(tup(s.slice(0, i), s.slice(i + len(p), len(s))))
+
+
+@model("core::str::<impl str>::rsplit_once")
+def m_rsplit_once(ctx, cty, a):
+    s, p = as_sstr(a[0]), pat_sstr(a[1])
+    k = len(p)
+    for i in range(len(s) - k, -1, -1):
+        if ctx.decide(s.slice(i, i + k).eq(p)):
+            return opt_some(tup(s.slice(0, i), s.slice(i + k, len(s))))
+    return opt_none()
